@@ -50,46 +50,50 @@ Proof.
 Qed.
 
 (* -------------------------------------------------------------------------------- sumQ *)
+Lemma sumQ_cons f x l : sumQ f (x :: l) == f x + sumQ f l.
+Proof. unfold sumQ. cbn [fold_right]. apply Qred_correct. Qed.
+
+Lemma sumQ_nil f : sumQ f [] = 0.
+Proof. reflexivity. Qed.
+
 Lemma sumQ_ext f g l : (forall i, In i l -> f i == g i) -> sumQ f l == sumQ g l.
 Proof.
-  induction l as [|x l IH]; intros H; cbn [sumQ fold_right]; [reflexivity|].
-  fold (sumQ f l). fold (sumQ g l).
+  induction l as [|x l IH]; intros H; [reflexivity|].
+  rewrite !sumQ_cons.
   rewrite H by (left; reflexivity). rewrite IH; [reflexivity|].
   intros i Hi. apply H. right. exact Hi.
 Qed.
 
 Lemma sumQ_app f l1 l2 : sumQ f (l1 ++ l2) == sumQ f l1 + sumQ f l2.
 Proof.
-  induction l1 as [|x l IH]; cbn [app sumQ fold_right].
-  - fold (sumQ f l2). ring.
-  - fold (sumQ f (l ++ l2)). fold (sumQ f l). rewrite IH. ring.
+  induction l1 as [|x l IH]; cbn [app].
+  - rewrite sumQ_nil. ring.
+  - rewrite !sumQ_cons, IH. ring.
 Qed.
 
 Lemma sumQ_rev f l : sumQ f (rev l) == sumQ f l.
 Proof.
   induction l as [|x l IH]; [reflexivity|].
-  cbn [rev]. rewrite sumQ_app, IH. cbn [sumQ fold_right]. fold (sumQ f l). ring.
+  cbn [rev]. rewrite sumQ_app, IH, !sumQ_cons, sumQ_nil. ring.
 Qed.
 
 Lemma sumQ_map f (h : Z -> Z) l : sumQ f (map h l) = sumQ (fun i => f (h i)) l.
 Proof.
   induction l as [|x l IH]; [reflexivity|].
-  cbn [map sumQ fold_right]. fold (sumQ f (map h l)). fold (sumQ (fun i => f (h i)) l).
-  now rewrite IH.
+  unfold sumQ in *. cbn [map fold_right]. now rewrite IH.
 Qed.
 
 Lemma sumQ_lin a b f g l :
   sumQ (fun i => a * f i + b * g i) l == a * sumQ f l + b * sumQ g l.
 Proof.
-  induction l as [|x l IH]; cbn [sumQ fold_right]; [ring|].
-  fold (sumQ (fun i => a * f i + b * g i) l). fold (sumQ f l). fold (sumQ g l).
-  rewrite IH. ring.
+  induction l as [|x l IH]; [rewrite !sumQ_nil; ring|].
+  rewrite !sumQ_cons, IH. ring.
 Qed.
 
 Lemma sumQ_zero f l : (forall i, In i l -> f i == 0) -> sumQ f l == 0.
 Proof.
-  induction l as [|x l IH]; intros H; cbn [sumQ fold_right]; [reflexivity|].
-  fold (sumQ f l). rewrite H by (left; reflexivity). rewrite IH; [ring|].
+  induction l as [|x l IH]; intros H; [reflexivity|].
+  rewrite sumQ_cons. rewrite H by (left; reflexivity). rewrite IH; [ring|].
   intros i Hi. apply H. right; exact Hi.
 Qed.
 
